@@ -158,7 +158,25 @@ fn find_slice_files(paths: &[String], are_source_files: bool, diagnostics: &mut 
 
 fn find_slice_files_in_path(path: PathBuf, diagnostics: &mut Diagnostics) -> Vec<PathBuf> {
     let mut paths = Vec::new();
-    if path.is_dir() {
+
+    // Query what this path refers to. We don't use `Path::is_dir` & `Path::is_file` here, because they treat every
+    // error as 'false', which would make us silently skip Slice files that we don't have permission to access.
+    let metadata = match fs::metadata(&path) {
+        Ok(metadata) => metadata,
+        // The path doesn't lead anywhere (ex: a dangling symbolic link); there is nothing to compile.
+        Err(error) if error.kind() == io::ErrorKind::NotFound => return paths,
+        Err(error) => {
+            Diagnostic::new(Error::IO {
+                action: "read",
+                path: path.display().to_string(),
+                error,
+            })
+            .push_into(diagnostics);
+            return paths;
+        }
+    };
+
+    if metadata.is_dir() {
         // Recurse into the directory.
         match find_slice_files_in_directory(&path, diagnostics) {
             Ok(child_paths) => paths.extend(child_paths),
@@ -169,7 +187,7 @@ fn find_slice_files_in_path(path: PathBuf, diagnostics: &mut Diagnostics) -> Vec
             })
             .push_into(diagnostics),
         }
-    } else if path.is_file() && is_slice_file(&path) {
+    } else if metadata.is_file() && is_slice_file(&path) {
         // Add the file to the list of paths.
         paths.push(path);
     }
